@@ -5,8 +5,8 @@
 (* (no global order was recorded: the hooks write to unsynchronised          *)
 (* per-goroutine buffers).  TLC searches for an interleaving of the logs     *)
 (* that is a behaviour of DistMatrixConc: every event must be the enabled    *)
-(* action of its process, with its logged arguments; the only silent step    *)
-(* is the mutex release.  Runs are validated one after the other; the run    *)
+(* action of its process, with its logged arguments (no silent step).        *)
+(* Runs are validated one after the other; the run    *)
 (* index reached is printed, so a run that no interleaving explains is       *)
 (* identified.                                                               *)
 (***************************************************************************)
@@ -29,12 +29,14 @@ Event(g) ==
     [] e.pt = "dm.w.dist"  -> dm_w_dist(w) /\ cur[w] = e.a
     [] e.pt = "dm.w.err"   -> dm_w_err(w) /\ cur[w] = e.a
     [] e.pt = "dm.w.lock"  -> dm_w_lock(w) /\ cur[w] = e.a
+    \* the release: after the running-maximum section it is the unlock action; after a recorded error the model has
+    \* already released (lock .. unlock is one step there) and the event is a stuttering step
+    [] e.pt = "dm.w.unlock" -> IF wpc[w] = "locked" THEN dm_w_unlock(w) /\ cur[w] = e.a ELSE (wpc[w] = "idle" /\ UNCHANGED vars)
     [] e.pt = "dm.w.done"  -> dm_w_done(w)
     [] e.pt = "dm.m.wait"  -> dm_m_wait
     [] e.pt = "dm.m.ret"   -> dm_m_ret(e.a)
     [] OTHER -> FALSE
 Step == \E g \in 1..Len(Logs) : pos[g] <= Len(Logs[g].ev) /\ Event(g) /\ pos' = [pos EXCEPT ![g] = @ + 1] /\ t' = t
-Silent == \E w \in Workers : w_unlock(w) /\ UNCHANGED tvars
 \* the whole run is explained and the call returned what the caller observed: go to the next run
 NextRun ==
   /\ Consumed /\ mpc = "done" /\ ret = Runs[t].ret
@@ -48,7 +50,7 @@ NextRun ==
           /\ perr' = FALSE /\ werr' = FALSE /\ cells' = [p \in 1..c.np |-> 0] /\ wgc' = c.nw
           /\ mpc' = "waiting" /\ ret' = "none"
      ELSE UNCHANGED <<pos, cfg, ppc, nxt, chan, closed, wpc, cur, nd, mux, perr, werr, cells, wgc, mpc, ret>>
-TNext == t <= Len(Runs) /\ (Step \/ Silent \/ NextRun)
+TNext == t <= Len(Runs) /\ (Step \/ NextRun)
 TSpec == TInit /\ [][TNext]_<<vars, tvars>>
 \* the invariants of the protocol are evaluated on every state of every explaining interleaving
 NotAllAccepted == t <= Len(Runs)
